@@ -38,7 +38,9 @@ ASSUMPTIONS = [
     "nothing beneath a set-B function is observed: the field arithmetic of the easy backend is not constant time and "
     "is not claimed to be; cache / memory-access patterns and timing are never measured",
     "scalar 0 and the point at infinity take documented early exits (public by convention) and are not in batches; "
-    "scalars are in [1, n), exponents positive",
+    "magnitudes are in [1, n), exponents positive; negative scalars (mixed-sign batches) are presented only to the "
+    "regular-recoding routines, whose source applies the sign by a masked copy - the ladders finish with a plain "
+    "conditional negation on the sign, which is read as their documented handling of a public sign",
     "the bit length of the scalar / exponent is public: batches never mix lengths",
 ]
 BUDGET_S = {"quick": 300, "thorough": 1700}
